@@ -1,14 +1,43 @@
 (* Comparison of the key-text observations (real code: DescriptorPublicKey::from_str + Display, under
    catch_unwind) with the model Ms/KeyTextModel.v.  Instance of the body parameters: an atom is the
    canonical text of the inner key (plus the BIP32 depth for an xpub) as computed by the harness with the
-   `bitcoin` crate directly; the per-case table lists the candidate substrings that are valid bodies. *)
+   `bitcoin` crate directly; the per-case table lists the candidate substrings that are valid bodies.
+   Primitive integers are used for transport only (evaluated by vm_compute; no axiom is used). *)
 From Coq Require Import List Bool NArith ZArith Uint63.
 Import ListNotations.
-From Verif Require Import KeyTextModel ChecksumTablesDefs KeyTextCasesGen.
+From Verif Require Import KeyTextModel KeyTextCasesGen.
 Local Open Scope N_scope.
 
+Definition i2n (i : int) : N := Z.to_N (Uint63.to_Z i).
+
+(* one byte held in a primitive integer -> N, eight steps *)
+Fixpoint bits_n (k : nat) (i : int) : N :=
+  match k with
+  | O => 0
+  | S k' => (if Uint63.eqb (Uint63.land i 1%uint63) 0%uint63 then 0 else 1) + 2 * bits_n k' (Uint63.lsr i 1%uint63)
+  end.
+Definition byte_at (w : int) (sh : int) : N := bits_n 8 (Uint63.land (Uint63.lsr w sh) 255%uint63).
+
+(* byte strings travel packed: length, then little-endian words of 7 bytes *)
+Definition word_bytes (w : int) : list N :=
+  [byte_at w 0%uint63; byte_at w 8%uint63; byte_at w 16%uint63; byte_at w 24%uint63;
+   byte_at w 32%uint63; byte_at w 40%uint63; byte_at w 48%uint63].
+Definition unpack (l : list int) : tbytes :=
+  match l with
+  | n :: ws => firstn (N.to_nat (i2n n)) (flat_map word_bytes ws)
+  | [] => []
+  end.
+Definition word_of (l : tbytes) : N := fold_right (fun c acc => c + 256 * acc) 0 l.
+Fixpoint pack_words (fuel : nat) (b : tbytes) : list N :=
+  match fuel with
+  | O => []
+  | S f => match b with [] => [] | _ :: _ => word_of (firstn 7 b) :: pack_words f (skipn 7 b) end
+  end.
+Definition pack (b : tbytes) : list N := N.of_nat (length b) :: pack_words (length b) b.
+
 Definition kcase := (list int * list (list int * list int) * list int * list int)%type.
-Definition ktable := list (tbytes * list N).
+(* candidate text -> (kind, depth, canonical text (delayed)) *)
+Definition ktable := list (tbytes * (N * N * (unit -> tbytes))).
 
 Fixpoint kt_eqb (a b : list N) : bool :=
   match a, b with
@@ -16,7 +45,7 @@ Fixpoint kt_eqb (a b : list N) : bool :=
   | x :: a', y :: b' => (x =? y) && kt_eqb a' b'
   | _, _ => false
   end.
-Fixpoint lookup (t : ktable) (c : tbytes) : option (list N) :=
+Fixpoint lookup (t : ktable) (c : tbytes) : option (N * N * (unit -> tbytes)) :=
   match t with
   | [] => None
   | (k, v) :: r => if kt_eqb k c then Some v else lookup r c
@@ -24,11 +53,11 @@ Fixpoint lookup (t : ktable) (c : tbytes) : option (list N) :=
 
 Definition xatom := (tbytes * N)%type.   (* canonical text, depth *)
 Definition t_xpub_parse (t : ktable) (c : tbytes) : option xatom :=
-  match lookup t c with Some (1 :: d :: canon) => Some (canon, d) | _ => None end.
+  match lookup t c with Some (1, d, canon) => Some (canon tt, d) | _ => None end.
 Definition t_full_parse (t : ktable) (c : tbytes) : option tbytes :=
-  match lookup t c with Some (2 :: _ :: canon) => Some canon | _ => None end.
+  match lookup t c with Some (2, _, canon) => Some (canon tt) | _ => None end.
 Definition t_xonly_parse (t : ktable) (c : tbytes) : option tbytes :=
-  match lookup t c with Some (3 :: _ :: canon) => Some canon | _ => None end.
+  match lookup t c with Some (3, _, canon) => Some (canon tt) | _ => None end.
 
 Definition tkey := dkey xatom tbytes tbytes.
 Definition t_key_parse (t : ktable) : tbytes -> outcome key_err tkey :=
@@ -40,7 +69,7 @@ Definition child_code (c : child) : N := match c with CNormal i => 2 * i | CHard
 Definition dump_path (p : list child) : list N := N.of_nat (length p) :: map child_code p.
 Definition dump_origin (o : origin) : list N :=
   match o with None => [0] | Some (fp, p) => 1 :: fp ++ dump_path p end.
-Definition dump_body (b : tbytes) : list N := N.of_nat (length b) :: b.
+Definition dump_body (b : tbytes) : list N := pack b.
 Definition wild_code (w : wildcard) : N := match w with WNone => 0 | WUnh => 1 | WHard => 2 end.
 Definition dump_key (k : tkey) : list N :=
   match k with
@@ -60,9 +89,9 @@ Definition model_obs (t : ktable) (s : tbytes) : list N * list N :=
      | Ok p =>
        (* the reparse of the printed text needs the body table extended with the canonical body *)
        let t' := match k with
-                 | KSingle _ (SFull a) => (a, 2 :: 0 :: a) :: t
-                 | KSingle _ (SXOnly a) => (a, 3 :: 0 :: a) :: t
-                 | KXPub _ x _ _ | KMulti _ x _ _ => (fst x, 1 :: snd x :: fst x) :: t
+                 | KSingle _ (SFull a) => (a, (2, 0, fun _ => a)) :: t
+                 | KSingle _ (SXOnly a) => (a, (3, 0, fun _ => a)) :: t
+                 | KXPub _ x _ _ | KMulti _ x _ _ => (fst x, (1, snd x, fun _ => fst x)) :: t
                  end in
        let flag := match t_key_parse t' p with
                    | Ok k' => if kt_eqb (dump_key k') (dump_key k) then 1 else 0
@@ -75,11 +104,19 @@ Definition model_obs (t : ktable) (s : tbytes) : list N * list N :=
   | Panic _ => ([2], [0])
   end.
 
-Definition case_text (c : kcase) : tbytes := map i2n (fst (fst (fst c))).
+Definition case_text (c : kcase) : tbytes := unpack (fst (fst (fst c))).
 Definition case_table (c : kcase) : ktable :=
-  map (fun e => (map i2n (fst e), map i2n (snd e))) (snd (fst (fst c))).
+  map (fun e => (unpack (fst e),
+                 match snd e with
+                 | k :: d :: canon => (i2n k, i2n d, fun _ : unit => unpack canon)
+                 | _ => (0, 0, fun _ : unit => [])
+                 end)) (snd (fst (fst c))).
 Definition case_obs (c : kcase) : list N := map i2n (snd (fst c)).
-Definition case_printed (c : kcase) : list N := map i2n (snd c).
+Definition case_printed (c : kcase) : list N :=
+  match snd c with
+  | a :: flag :: r => i2n a :: i2n flag :: unpack r
+  | l => map i2n l
+  end.
 
 Definition case_ok (c : kcase) : bool :=
   let '(mo, mp) := model_obs (case_table c) (case_text c) in
